@@ -154,7 +154,7 @@ class InboxSched(Part):
         return d
 
 
-COQ_FILES = ["Ring.v", "RingProofs.v", "Inbox.v", "InboxProofs.v", "InboxExec.v", "PropsInbox.v", "PropsRing.v", "DeliverExec.v"]
+COQ_FILES = ["Ring.v", "RingProofs.v", "Inbox.v", "InboxProofs.v", "InboxExec.v", "PropsInbox.v", "PropsRing.v", "DeliverExec.v", "InboxRing.v", "InboxRingProofs.v", "InboxSelf.v", "InboxSelfProofs.v", "PropsInboxRing.v"]
 TRUSTED_BASE = [
     "Coq 8.16.1 kernel; vm_compute (model replay of the explored schedules); no native_compute",
     "axioms: none (Print Assumptions below)",
